@@ -38,6 +38,21 @@
                              DataUnchanged ("records within the limit are never altered": the exception
                              check runs on the very bytes Pipeline.In decodes afterwards).
 
+     M_ErrClearedBeforeDecode  Pipeline.In resets its error variable right before the decode switch, so a
+                             failed parse of the CRI timestamp (needed only for the antispam) is not taken for
+                             a decoding error (FALSE: the stale error survives) -- CriAdmitted.
+     M_SubjectPerException   IsSpam picks the subject (record bytes / source name) anew for every exception of
+                             the list (FALSE: once a check_source_name exception was met, the later ones are
+                             matched against the source name too) -- ExceptionListExempts.
+
+   PART "cri":  the CRI path of Pipeline.In with the error variable threaded through its steps, over
+   well-formed lines (time zone Z / numeric offset, stdout / stderr, full / partial) x antispam
+   {disabled, threshold 0 + rule, large threshold}: nothing is banned, so every such record is admitted.
+
+   PART "xlist":  the exception loop of IsSpam over a LIST of 1..3 exceptions, each checked against the
+   record bytes or the source name, with the abstract bits "its rule matches the record" / "matches the
+   source name": exempt iff some exception matches its own subject.
+
    PART "match":  cfg/matchrule Rule.Match / RuleSet.Match (what decides "a matching exception"),
    transcribed with Prepare's lower-casing, the min/max value-size shortcuts and Invert, against the
    declarative meaning: a rule matches iff Invert # (some value is a prefix / infix / suffix of the
@@ -58,16 +73,19 @@ CONSTANTS
   Ts, WithDisabled,   \* thresholds >= 1, or 0 = block whatever no rule covers; WithDisabled adds the threshold -1 (TLC cfg files have no negative literals)
   T2s, Us, Modes,
   D_ResidualAfterUnban, D_ExceptionsIgnoredWithRules,
-  M_CapPerSource, M_InvertAfterShortcut, M_LowerCopies,
+  M_CapPerSource, M_InvertAfterShortcut, M_LowerCopies, M_ErrClearedBeforeDecode, M_SubjectPerException,
   MSyms,            \* match: symbols of data and values (1 = a, 2 = b, 3 = A, the upper case of 1)
   MDataMax, MValMax,\* match: length bounds of data / values
   MCi,              \* match: candidate case_insensitive flags
   MPairLens         \* match: two-rule sets use the values a, ab, aba cut to these lengths
 
 NL == 0
+B2I(b) == IF b THEN 1 ELSE 0
 Srcs == 1..NSrc
 
 VARIABLES part,
+          cr,                       \* cri case
+          xl,                       \* exception-list case
           mt,                       \* match case
           sz,                       \* size case
           sc,                       \* spam configuration [T, T2, U, mode]
@@ -77,7 +95,7 @@ VARIABLES part,
           win, silent, pb,          \* declarative: arrivals since previous maintenance, silent rounds, may-be-banned
           resid                     \* explanation of D_ResidualAfterUnban: the counter the last maintenance left
 
-vars == <<part, mt, sz, sc, known, cnt, ts, thrOf, now, hist, win, silent, pb, resid>>
+vars == <<part, cr, xl, mt, sz, sc, known, cnt, ts, thrOf, now, hist, win, silent, pb, resid>>
 
 -----------------------------------------------------------------------------
 (* ============================ PART size ================================= *)
@@ -148,6 +166,62 @@ SizeExport == [part |-> "size", L |-> sz.L, nl |-> sz.nl, M |-> sz.M, cut |-> sz
                mret |-> In(sz).ret]
 
 NoSz == [L |-> 0, nl |-> FALSE, M |-> 0, cut |-> FALSE, mark |-> FALSE, undec |-> FALSE, committed |-> FALSE]
+
+-----------------------------------------------------------------------------
+(* ============================ PART cri ================================== *)
+
+CriCases == {[zone |-> z, stream |-> st, flag |-> f, anti |-> a] :
+               z \in {"z", "offset"}, st \in {"stdout", "stderr"}, f \in {"F", "P"},
+               a \in {"disabled", "zero+rule", "large"}}
+NoCr == [zone |-> "z", stream |-> "stdout", flag |-> "F", anti |-> "disabled"]
+
+(* --- transcription: Pipeline.In, decoder cri, well-formed line, the variable err step by step --- *)
+InCri(c) ==
+  LET err0 == FALSE                                           \* row, err = decoder.DecodeCRI(bytes): well-formed
+      consult == c.flag # "P" /\ c.anti # "disabled"          \* !row.IsPartial && Antispam.Threshold >= 0
+      \* eventTime, err = time.Parse("2006-01-02T15:04:05.999999999Z", row.Time): fails on a numeric zone; only logged
+      err1 == IF consult THEN c.zone # "z" ELSE err0
+      spam == FALSE                                           \* fresh source, threshold not reached / rule lifts the block
+      err2 == IF M_ErrClearedBeforeDecode THEN FALSE ELSE err1 \* err = nil
+      err3 == err2                                            \* case decoder.CRI: log / time / stream copied, err untouched
+  IN IF err0 THEN [ret |-> 0, why |-> "wrong cri format"]
+     ELSE IF consult /\ spam THEN [ret |-> 0, why |-> "spam"]
+     ELSE IF err3 THEN [ret |-> 0, why |-> "wrong log format"]   \* if err != nil { ... back to pool; return 0 }
+     ELSE [ret |-> 1, why |-> ""]
+
+\* the statement: a well-formed, non-empty record from a source that is not banned is admitted; "antispam
+\* enabled" is not a reason for refusal, so the verdict does not depend on the antispam setting
+CriAdmitted == part = "cri" => InCri(cr).ret = 1
+CriVerdictIgnoresAntispam ==
+  part = "cri" => \A a \in {"disabled", "zero+rule", "large"} : InCri([cr EXCEPT !.anti = a]).ret = InCri(cr).ret
+CriExport == [part |-> "cri", zone |-> cr.zone, stream |-> cr.stream, flag |-> cr.flag, anti |-> cr.anti,
+              admit |-> TRUE, mret |-> InCri(cr).ret]
+
+-----------------------------------------------------------------------------
+(* ============================ PART xlist ================================ *)
+
+\* one exception: its subject, and whether its rule set matches the record bytes / the source name
+XExc == [name : BOOLEAN, mc : BOOLEAN, mn : BOOLEAN]
+XLists == UNION {[1..n -> XExc] : n \in 1..3}
+NoXl == <<>>
+
+(* --- transcription: the exception loop of IsSpam (rules == nil) --- *)
+RECURSIVE XLoop(_, _, _)
+XLoop(list, i, sticky) ==          \* sticky: the subject left over from earlier iterations (mutant only)
+  IF i > Len(list) THEN FALSE
+  ELSE LET e == list[i]
+           \* checkData := event; if e.CheckSourceName { checkData = []byte(name) }
+           onName == IF M_SubjectPerException THEN e.name ELSE (sticky \/ e.name)
+           m == IF onName THEN e.mn ELSE e.mc      \* e.Match(checkData)
+       IN IF m THEN TRUE ELSE XLoop(list, i + 1, onName)
+XExemptModel(list) == XLoop(list, 1, FALSE)
+
+\* declarative: exempt iff some exception matches its own subject
+XExempt(list) == \E i \in DOMAIN list : IF list[i].name THEN list[i].mn ELSE list[i].mc
+ExceptionListExempts == part = "xlist" => XExemptModel(xl) = XExempt(xl)
+XExport == [part |-> "xlist",
+            excs |-> [i \in DOMAIN xl |-> <<B2I(xl[i].name), B2I(xl[i].mc), B2I(xl[i].mn)>>],
+            exempt |-> XExempt(xl), mex |-> XExemptModel(xl)]
 
 -----------------------------------------------------------------------------
 (* ============================ PART match ================================ *)
@@ -298,7 +372,6 @@ MaintOne(s) ==
 
 BannedIn(kn, c, th, s) == s \in kn /\ c[s] >= th[s]
 Banned(s) == BannedIn(known, cnt, thrOf, s)
-B2I(b) == IF b THEN 1 ELSE 0
 
 KindCode(k) == CASE k = "n" -> 0 [] k = "e" -> 1 [] k = "u" -> 2 [] k = "new" -> 3
 
@@ -330,7 +403,7 @@ Arrive(s, kind, dt) ==
         /\ win' = win1 /\ pb' = pb1 /\ silent' = [silent EXCEPT ![s] = 0]
         /\ resid' = resid1
         /\ hist' = Append(hist, step)
-  /\ UNCHANGED <<part, mt, sz, sc>>
+  /\ UNCHANGED <<part, cr, xl, mt, sz, sc>>
 
 Maintain ==
   /\ part = "spam" /\ Len(hist) < MaxSteps
@@ -351,13 +424,16 @@ Maintain ==
         /\ win' = Zero /\ silent' = silent1 /\ pb' = pb1
         /\ resid' = cnt1
         /\ hist' = Append(hist, step)
-  /\ UNCHANGED <<part, mt, sz, sc, now>>
+  /\ UNCHANGED <<part, cr, xl, mt, sz, sc, now>>
 
 -----------------------------------------------------------------------------
 Init ==
   /\ part \in Parts
+  /\ IF part = "cri" THEN cr \in CriCases ELSE cr = NoCr
+  /\ IF part = "xlist" THEN xl \in XLists ELSE xl = NoXl
   /\ IF part = "size" THEN sz \in SizeCasesBounded /\ sc = NoSc /\ mt = NoMt
      ELSE IF part = "match" THEN MatchInit /\ sz = NoSz /\ sc = NoSc
+     ELSE IF part \in {"cri", "xlist"} THEN sz = NoSz /\ sc = NoSc /\ mt = NoMt
      ELSE /\ sz = NoSz /\ mt = NoMt
           /\ \E T \in Ts \cup (IF WithDisabled THEN {-1} ELSE {}), U \in Us, mode \in Modes :
                \E T2 \in (IF mode = "rules" /\ NSrc >= 2 THEN T2s ELSE {0}) :
@@ -384,7 +460,7 @@ PrevMb(s) == IF Len(hist) = 1 THEN 0 ELSE hist[Len(hist) - 1].mb[s]
 Flip(s) == Last.mb[s] = 1 /\ PrevMb(s) = 0          \* banned(s) became true in the last step
 
 TypeOK ==
-  /\ part \in {"size", "spam", "match"}
+  /\ part \in {"size", "spam", "match", "cri", "xlist"}
   /\ part = "spam" => /\ \A s \in Srcs : cnt[s] >= 0 /\ (s \notin known => cnt[s] = 0)
                       /\ \A s \in known : cnt[s] <= sc.U * thrOf[s] + MaxSteps
 
@@ -440,6 +516,8 @@ SpamExport == [part |-> "spam", T |-> sc.T, T2 |-> sc.T2, U |-> sc.U, mode |-> s
 Export ==
   IF part = "size" THEN PrintT(ToJson(SizeExport))
   ELSE IF part = "match" THEN PrintT(ToJson(MatchExport))
+  ELSE IF part = "cri" THEN PrintT(ToJson(CriExport))
+  ELSE IF part = "xlist" THEN PrintT(ToJson(XExport))
   ELSE IF Len(hist) = MaxSteps THEN PrintT(ToJson(SpamExport))
   ELSE TRUE
 
